@@ -151,8 +151,8 @@ def run(ctx):
     # ---- 4. real code
     exe = vlib.build(ctx, "stop_driver", ["engines/stop/driver.cpp"], lib=["inplace_stop_token.cpp"])
     runs = [("guided", ["--mode", "guided", "--scenarios", sp, "--behaviours", bp], nb)]
-    runs.append(("dfs", ["--mode", "dfs", "--scenarios", sp, "--bound", 2 if ctx.quick else 3, "--cap", 150 if ctx.quick else 2000], len(scns)))
-    runs.append(("random", ["--mode", "random", "--scenarios", sp, "--seed", ctx.seed, "--cap", 40 if ctx.quick else 300], len(scns)))
+    runs.append(("dfs", ["--mode", "dfs", "--scenarios", sp, "--bound", 2 if ctx.quick else 3, "--cap", 150 if ctx.quick else 1000], len(scns)))
+    runs.append(("random", ["--mode", "random", "--scenarios", sp, "--seed", ctx.seed, "--cap", 40 if ctx.quick else 100], len(scns)))
     import time
     for mode, args, total in runs:
         if len(rep.violations) >= 3:
